@@ -1779,4 +1779,209 @@ theorem updateStableFull_no_panic (C : Cfg) {s : St} (b : Blk) (hi : TInv s) (ht
       refine ⟨by simp, ?_⟩
       exact batchConfirm_ginv C _ (s := { setStable s c with terms := t }) gs
 
+
+theorem ginv_of_same {s s' : St} (ht : s'.tree = s.tree) (hc : s'.committed = s.committed) (hd : s'.termDur = s.termDur)
+    (h : GInv s) : GInv s' := by
+  unfold GInv; rw [ht, hc, hd]; exact h
+
+theorem saveNewBlock_no_panic (C : Cfg) {s : St} (b : Blk) (hi : Inv s) (hg : GInv s)
+    (hp : PInv (fun _ _ => True) s) (hb : Loadable s.termDur b) (hm : b.miner ∈ depsAt s b.height) :
+    (saveNewBlock C s b).2 ≠ "panic" ∧ GInv (saveNewBlock C s b).1 := by
+  unfold saveNewBlock
+  split
+  · exact ⟨by simp, hg⟩
+  · rename_i s1 hs1
+    obtain ⟨e1, t1⟩ := setBlock_spec hi.toTInv hs1
+    have key : ∀ s1' : St, s1'.tree = s1.tree → s1'.stable = s1.stable → s1'.committed = s1.committed →
+        s1'.terms = s1.terms → Consts s1 s1' →
+        (let r := updateStableFull C s1' b
+         if r.2 = .err then (r.1, "ErrSaveBlock")
+         else if r.2 = .panic then (r.1, "panic")
+         else match forkDecision r.1 b with
+           | none => (r.1, "panic")
+           | some h => (setHead r.1 h, "ok")).2 ≠ "panic" ∧
+        GInv (let r := updateStableFull C s1' b
+              if r.2 = .err then (r.1, "ErrSaveBlock")
+              else if r.2 = .panic then (r.1, "panic")
+              else match forkDecision r.1 b with
+                | none => (r.1, "panic")
+                | some h => (setHead r.1 h, "ok")).1 := by
+      intro s1' g1 g2 g3 g4 g6
+      have t1' : TInv s1' := t1.of_same g1 g3 g2 g6.2.1
+      have tk1 : TermsOK s1' := by
+        unfold TermsOK; rw [g4, g2, g6.2.1, e1]; exact hi.terms
+      have ks : Consts s s1' := by rw [e1] at g6; exact g6
+      have hts : s1'.terms = s.terms := by rw [g4, e1]
+      have hd : ∀ h, depsAt s1' h = depsAt s h := depsAt_congr' ks hts
+      have hp1 : PInv (fun _ _ => True) s1' := by
+        intro x hx
+        rw [g1, e1] at hx
+        rw [hd]
+        rcases List.mem_cons.1 hx with rfl | hx
+        · exact ⟨hm, trivial⟩
+        · exact hp x hx
+      have hg1 : GInv s1' := by
+        unfold GInv
+        rw [g1, g3, ks.2.1, e1]
+        refine ⟨?_, hg.2⟩
+        intro x hx
+        rcases List.mem_cons.1 hx with rfl | hx
+        · exact hb
+        · exact hg.1 x hx
+      have hb1 : b ∈ s1'.tree := by rw [g1, e1]; exact List.mem_cons_self
+      obtain ⟨hnp, hg2⟩ := updateStableFull_no_panic C b t1' tk1 hg1
+      obtain ⟨hp2, _, _⟩ := updateStableFull_quorum (P := fun _ _ => True) C t1' tk1 hp1
+        (fun c hc hcid => WF.unique t1'.wf c hc b hb1 hcid) hnp
+      simp only
+      split
+      · exact ⟨by simp, hg2⟩
+      · try rw [if_neg hnp]
+        split
+        · rename_i hfd; exact absurd hfd (needSwitchFork_no_panic hp2 b)
+        · rename_i h _
+          obtain ⟨f1, _, f3, _, k⟩ := setHead_fields (updateStableFull C s1' b).1 h
+          exact ⟨by simp, ginv_of_same f1 f3 k.2.1 hg2⟩
+    simp only
+    split
+    · obtain ⟨f1, f2, f3, f4, _, _, f7⟩ := setLastSig_fields s1 b
+      exact key _ f1 f2 f3 f4 f7
+    · exact key _ rfl rfl rfl rfl (Consts.refl s1)
+
+theorem tryConfirm_blk_fields (C : Cfg) (s : St) (b : Blk) :
+    (tryConfirm C s b).2.height = b.height ∧ (tryConfirm C s b).2.miner = b.miner ∧
+    (tryConfirm C s b).2.snapBad = b.snapBad ∧ (tryConfirm C s b).2.nextDeps = b.nextDeps := by
+  unfold tryConfirm
+  split
+  · simp only
+    split <;> exact ⟨rfl, rfl, rfl, rfl⟩
+  · exact ⟨rfl, rfl, rfl, rfl⟩
+
+theorem insertBlock_no_panic (C : Cfg) {s : St} (b : Blk) (valid : Bool) (hi : Inv s) (hg : GInv s)
+    (hp : PInv (fun _ _ => True) s) (hb : Loadable s.termDur b) :
+    (insertBlock C s b valid).2 ≠ "panic" ∧ GInv (insertBlock C s b valid).1 := by
+  rcases insertBlock_cases C s b valid with ⟨msg, e, hmsg⟩ | ⟨_, h2, e⟩
+  · rw [e]; exact ⟨hmsg, hg⟩
+  rw [e]
+  obtain ⟨i1, _, e1, e2, k, e3⟩ := tryConfirm_spec C
+    { b with confirms := (C.V (depsAt s b.height) { b with confirms := [] } b.confirms).1 } hi
+  obtain ⟨fh, fm, fb, fn⟩ := tryConfirm_blk_fields C s
+    { b with confirms := (C.V (depsAt s b.height) { b with confirms := [] } b.confirms).1 }
+  obtain ⟨pp, _⟩ := pq_of_same (P := fun _ _ => True) e1 e3 e2 k
+  have hd : ∀ h, depsAt (tryConfirm C s
+      { b with confirms := (C.V (depsAt s b.height) { b with confirms := [] } b.confirms).1 }).1 h = depsAt s h :=
+    depsAt_congr' k e2
+  have hcm : (tryConfirm C s
+      { b with confirms := (C.V (depsAt s b.height) { b with confirms := [] } b.confirms).1 }).1.committed = s.committed := by
+    unfold tryConfirm
+    split
+    · simp only
+      split <;> exact (setLastSig_fields s _).2.2.1
+    · rfl
+  apply saveNewBlock_no_panic C _ i1 (ginv_of_same e1 hcm k.2.1 hg) (pp hp)
+  · unfold Loadable; rw [fb, fn, fh, k.2.1]; exact hb
+  · rw [hd, fh, fm]; exact h2
+
+theorem mineBlock_no_panic (C : Cfg) {s : St} (b : Blk) (hi : Inv s) (hg : GInv s)
+    (hp : PInv (fun _ _ => True) s) (hb : b.snapBad = false ∧ ((s.headHeight + 1) % s.termDur = 0 → b.nextDeps ≠ [])) :
+    (mineBlock C s b).2 ≠ "panic" ∧ GInv (mineBlock C s b).1 := by
+  unfold mineBlock
+  split
+  · exact ⟨by simp, hg⟩
+  · rename_i hself
+    exact saveNewBlock_no_panic C _ hi hg hp hb (Decidable.not_not.1 hself)
+
+theorem afterConfirm_no_panic (C : Cfg) {s1 : St} (nb : Blk) (height : Nat) (hi : Inv s1) (hg : GInv s1) :
+    (afterConfirm C s1 nb height).2 ≠ "panic" ∧ GInv (afterConfirm C s1 nb height).1 := by
+  unfold afterConfirm
+  split
+  · obtain ⟨hnp, hg2⟩ := updateStableFull_no_panic C nb hi.toTInv hi.terms hg
+    simp only
+    split
+    · exact ⟨by simp, hg2⟩
+    · try rw [if_neg hnp]
+      refine ⟨by simp, ?_⟩
+      have hcm : (updateForkForConfirm (updateStableFull C s1 nb).1).committed = (updateStableFull C s1 nb).1.committed := by
+        unfold updateForkForConfirm
+        split
+        · exact (setHead_fields _ _).2.2.1
+        · rfl
+      obtain ⟨f1, _, _, k⟩ := updateForkForConfirm_fields (updateStableFull C s1 nb).1
+      exact ginv_of_same f1 hcm k.2.1 hg2
+  · exact ⟨by simp, hg⟩
+
+theorem saveConfirm_ginv {s : St} (b : Blk) (valid : List Sig) (hg : GInv s) : GInv (saveConfirm s b valid).1 := by
+  unfold saveConfirm
+  split
+  · exact ⟨replaceBlk_loadable _ _ hg.1, hg.2⟩
+  · exact ⟨hg.1, replaceBlk_loadable _ _ hg.2⟩
+
+theorem insertConfirms_no_panic (C : Cfg) {s : St} (id height : Nat) (sigs : List Sig) (hi : Inv s) (hg : GInv s) :
+    (insertConfirms C s id height sigs).2 ≠ "panic" ∧ GInv (insertConfirms C s id height sigs).1 := by
+  unfold insertConfirms
+  split
+  · exact ⟨by simp, hg⟩
+  split
+  · exact ⟨by simp, hg⟩
+  rename_i b _
+  split
+  · exact ⟨by simp, hg⟩
+  split
+  · exact ⟨by simp, hg⟩
+  simp only
+  split
+  · refine ⟨?_, hg⟩
+    split
+    · simp
+    · cases (C.V (depsAt s b.height) b sigs).2 <;> simp [CErr.name]
+  · obtain ⟨i1, _⟩ := saveConfirm_inv b (C.V (depsAt s b.height) b sigs).1 hi
+    exact afterConfirm_no_panic C _ height i1 (saveConfirm_ginv b _ hg)
+
+theorem reopen_no_panic {s : St} (hi : Inv s) (hg : GInv s) : (reopen s).2 ≠ "panic" ∧ GInv (reopen s).1 := by
+  obtain ⟨c, rest, hcm, _, _⟩ := hi.top
+  have hsome := saveSnapshots_chain_some hi.tpos hi.linked hi.bottom hg.2
+  unfold reopen
+  split
+  · rename_i hn; exact absurd hn hsome
+  · split
+    · rename_i hnil; rw [hcm] at hnil; cases hnil
+    · exact ⟨by simp, ⟨fun b hb => (by cases hb), hg.2⟩⟩
+
+theorem step_no_panic (C : Cfg) {s : St} (op : Op) (hi : Inv s) (hg : GInv s) (hp : PInv (fun _ _ => True) s)
+    (ho : OpLoadable s op) : (step C s op).2 ≠ "panic" ∧ GInv (step C s op).1 := by
+  cases op with
+  | block b valid => exact insertBlock_no_panic C b valid hi hg hp ho
+  | mine b => exact mineBlock_no_panic C b hi hg hp ho
+  | confirms id h sigs => exact insertConfirms_no_panic C id h sigs hi hg
+  | reopen => exact reopen_no_panic hi hg
+
+/-- every operation of the history satisfies `OpLoadable` in the state it is applied to. -/
+def RunLoadable (C : Cfg) : St → List Op → Prop
+  | _, [] => True
+  | s, op :: ops => OpLoadable s op ∧ RunLoadable C (step C s op).1 ops
+
+theorem runP_total (C : Cfg) : ∀ (ops : List Op) {s : St}, Inv s → GInv s → PInv (fun _ _ => True) s →
+    RunLoadable C s ops → runP C s ops = some (run C s ops)
+  | [], _, _, _, _, _ => rfl
+  | op :: ops, s, hi, hg, hp, hl => by
+    obtain ⟨hnp, hg1⟩ := step_no_panic C op hi hg hp hl.1
+    rw [runP, if_neg hnp]
+    exact runP_total C ops ((step_spec C op hi).2.2 hnp) hg1 (step_quorum (vok_trivial C) op hi hp hnp).1 hl.2
+
+/-- NO GO PANIC on the modelled paths, whatever arrives in whatever order, as long as the deputy list
+    of every snapshot block given to the node (genesis included) is loadable: then the panic-free
+    run `runP` IS the run, i.e. every state of the history is `Reach`able and all theorems apply. -/
+theorem no_panic_of_loadable_snapshots (C : Cfg) (dc T I self g : Nat) (term0 : List Nat) (ops : List Op)
+    (hT : 0 < T) (h0 : term0 ≠ []) (hl : RunLoadable C (init dc T I self g term0) ops) :
+    runP C (init dc T I self g term0) ops = some (run C (init dc T I self g term0) ops) ∧
+    Reach C (run C (init dc T I self g term0) ops) := by
+  have hg : GInv (init dc T I self g term0) := by
+    refine ⟨fun b hb => (by cases hb), ?_⟩
+    intro b hb
+    have hb' : b ∈ [genesis g term0] := hb
+    rw [List.mem_singleton] at hb'
+    subst hb'
+    exact ⟨rfl, fun _ => h0⟩
+  have e := runP_total C ops (inv_init dc T I self g term0 hT) hg (fun b hb => by cases hb) hl
+  exact ⟨e, dc, T, I, self, g, term0, ops, hT, e⟩
+
 end LemoProofs.C03
